@@ -1,22 +1,264 @@
 //! replay of string-level behaviours (profiles, string classes, context rules, bidi)
+use crate::api::*;
+use crate::oracle::Oracle;
 use crate::replay::Tally;
 use crate::util::*;
+use precis_core::{DerivedPropertyValue, FreeformClass, StringClass};
 use serde_json::{json, Value};
+use std::collections::HashMap;
+use unicode_normalization::UnicodeNormalization;
 
 pub struct Ctx {
-    pub oracle: Option<crate::oracle::Oracle>,
+    pub oracle: Option<Oracle>,
     pub seed: u64,
+    pub forms: bool,
+    pub draws: u64,
+    pub by_class: HashMap<String, Vec<u32>>,
 }
 
 impl Ctx {
     pub fn new(args: &[String]) -> Ctx {
+        let oracle = arg_value(args, "--oracle").map(|p| Oracle::load(&p));
+        let mut by_class: HashMap<String, Vec<u32>> = HashMap::new();
+        if let Some(o) = oracle.as_ref() {
+            // code points assigned in 16.0.0, by bidirectional class (for instantiating class sequences)
+            for cp in 0..crate::oracle::N as u32 {
+                if (0xD800..=0xDFFF).contains(&cp) || !o.assigned16[cp as usize] {
+                    continue;
+                }
+                by_class.entry(o.bidi_of(cp).to_string()).or_default().push(cp);
+            }
+        }
         Ctx {
-            oracle: arg_value(args, "--oracle").map(|p| crate::oracle::Oracle::load(&p)),
+            oracle,
             seed: arg_u64(args, "--seed", 1),
+            forms: args.iter().any(|a| a == "--forms"),
+            draws: arg_u64(args, "--draws", 1),
+            by_class,
         }
     }
 }
 
-pub fn replay(_ctx: &Ctx, doc: &Value, t: &mut Tally) {
-    t.mismatch(json!({"toolerr": "unknown replay kind", "case": doc}));
+pub fn class_of_profile(p: &str) -> &'static str {
+    if p == "UCM" || p == "UCP" {
+        "Id"
+    } else {
+        "Ff"
+    }
+}
+
+pub fn direct_lower(s: &str) -> String {
+    s.chars().flat_map(|c| c.to_lowercase()).collect()
+}
+
+/// C08 on a successful enforce result: no forbidden character, no drift
+pub fn c08_check(p: &str, out: &str) -> Option<Value> {
+    let cls = class_of_profile(p);
+    for (i, c) in out.chars().enumerate() {
+        let v = class_value_char(cls, c);
+        if v == "DISALLOWED" || v == "UNASSIGNED" {
+            return Some(json!({"c08": "forbidden", "cp": c as u32, "pos": i, "prop": v}));
+        }
+    }
+    let again = call_profile(p, "enforce", &[out.to_string()]);
+    if let Some(o2) = again.get("ok") {
+        if *o2 != string_to_cps(out) {
+            return Some(json!({"c08": "drift", "second": again}));
+        }
+    } else if again.get("panic").is_some() {
+        return Some(json!({"c08": "panic", "second": again}));
+    }
+    None
+}
+
+fn replay_op(ctx: &Ctx, doc: &Value, t: &mut Tally) {
+    let p = doc["p"].as_str().unwrap();
+    let op = doc["op"].as_str().unwrap();
+    let input = cps_to_string(&doc["in"]).unwrap_or_else(|| tool_error("bad input"));
+    // sanity of the generated universe: steps the model normalized / lower-cased are recomputed
+    // with the reference functions called directly.  A disagreement is a tool error.
+    if let Some(steps) = doc.get("steps").and_then(|s| s.as_array()) {
+        let mut prev = input.clone();
+        for st in steps {
+            let name = st["name"].as_str().unwrap();
+            if let Some(out) = st["out"].get("ok") {
+                let out_s = cps_to_string(out).unwrap();
+                let direct = match name {
+                    "nfc" => Some(prev.nfc().collect::<String>()),
+                    "nfkc" => Some(prev.nfkc().collect::<String>()),
+                    "lower" => Some(direct_lower(&prev)),
+                    _ => None,
+                };
+                if let Some(d) = direct {
+                    if d != out_s {
+                        t.mismatch(json!({"toolerr": "model step disagrees with the reference function called directly",
+                                          "step": name, "in": string_to_cps(&prev), "model": out, "direct": string_to_cps(&d)}));
+                        return;
+                    }
+                }
+                prev = out_s;
+            }
+        }
+        if steps.len() > 1 {
+            t.nontrivial += 1;
+        }
+    }
+    let args = [input.clone()];
+    let actual = call_profile(p, op, &args);
+    t.executions += 1;
+    if actual != doc["res"] {
+        let dev = doc.get("devres").map(|d| *d == actual).unwrap_or(false);
+        t.mismatch(json!({"k": "op", "p": p, "op": op, "in": doc["in"], "expected": doc["res"], "actual": actual,
+                          "dev": if dev { json!("bidi_nsm_strict") } else { Value::Null }}));
+    }
+    if op == "enforce" {
+        if let Some(o) = actual.get("ok") {
+            if let Some(m) = c08_check(p, &cps_to_string(o).unwrap()) {
+                t.mismatch(json!({"k": "c08", "p": p, "in": doc["in"], "out": o, "what": m}));
+            }
+        }
+    }
+    if ctx.forms && (op == "prepare" || op == "enforce") {
+        for form in ["static", "long"] {
+            for (kn, kind) in ARG_KINDS.iter() {
+                let (v, _) = call_profile_full(p, form, op, *kind, &args);
+                t.executions += 1;
+                if v != actual {
+                    t.mismatch(json!({"k": "c16form", "p": p, "op": op, "in": doc["in"], "form": form, "arg": kn,
+                                      "reference": actual, "actual": v}));
+                }
+            }
+        }
+    }
+}
+
+fn replay_cmpop(ctx: &Ctx, doc: &Value, t: &mut Tally) {
+    let p = doc["p"].as_str().unwrap();
+    let a = cps_to_string(&doc["a"]).unwrap();
+    let b = cps_to_string(&doc["b"]).unwrap();
+    let args = [a, b];
+    let actual = call_profile(p, "compare", &args);
+    t.executions += 1;
+    if actual != doc["res"] {
+        let dev = doc.get("devres").map(|d| *d == actual).unwrap_or(false);
+        t.mismatch(json!({"k": "compare", "p": p, "a": doc["a"], "b": doc["b"], "expected": doc["res"], "actual": actual,
+                          "dev": if dev { json!("bidi_nsm_strict") } else { Value::Null }}));
+    }
+    if ctx.forms {
+        let (v, _) = call_profile_full(p, "static", "compare", ArgKind::Str, &args);
+        t.executions += 1;
+        if v != actual {
+            t.mismatch(json!({"k": "c16form", "p": p, "op": "compare", "a": doc["a"], "b": doc["b"], "form": "static",
+                              "reference": actual, "actual": v}));
+        }
+    }
+    if doc["res"].get("eq").is_some() && doc["a"] != doc["b"] {
+        t.nontrivial += 1;
+    }
+}
+
+fn replay_ctx(doc: &Value, t: &mut Tally) {
+    let s = cps_to_string(&doc["s"]).unwrap();
+    let off = doc["off"].as_u64().unwrap() as usize;
+    let rule = doc["rule"].as_str().unwrap();
+    let actual = call_ctx(rule, &s, off);
+    t.executions += 1;
+    if actual != doc["res"] {
+        t.mismatch(json!({"k": "ctx", "rule": rule, "s": doc["s"], "off": off, "expected": doc["res"], "actual": actual}));
+    }
+    if doc["res"].get("bool").is_some() {
+        t.nontrivial += 1;
+    }
+}
+
+fn replay_allows(doc: &Value, t: &mut Tally) {
+    let s = cps_to_string(&doc["s"]).unwrap();
+    let cls = doc["cls"].as_str().unwrap();
+    let actual = call_allows(cls, &s);
+    t.executions += 1;
+    if actual != doc["res"] {
+        t.mismatch(json!({"k": "allows", "cls": cls, "s": doc["s"], "expected": doc["res"], "actual": actual}));
+    }
+    if doc["res"].get("err").is_some() {
+        t.nontrivial += 1;
+    }
+}
+
+/// a user-supplied string class: arbitrary property assignment for some characters, the
+/// FreeformClass value for all others; `allows` is the trait's DEFAULT method (the code under test)
+struct TableClass {
+    assign: HashMap<u32, DerivedPropertyValue>,
+    base: FreeformClass,
+}
+
+impl StringClass for TableClass {
+    fn get_value_from_char(&self, c: char) -> DerivedPropertyValue {
+        self.get_value_from_codepoint(c as u32)
+    }
+    fn get_value_from_codepoint(&self, cp: u32) -> DerivedPropertyValue {
+        match self.assign.get(&cp) {
+            Some(v) => *v,
+            None => self.base.get_value_from_codepoint(cp),
+        }
+    }
+}
+
+fn replay_tclass(doc: &Value, t: &mut Tally) {
+    let s = cps_to_string(&doc["s"]).unwrap();
+    let mut assign = HashMap::new();
+    for pair in doc["assign"].as_array().unwrap() {
+        assign.insert(
+            pair[0].as_u64().unwrap() as u32,
+            prop_from_name(pair[1].as_str().unwrap()).unwrap_or_else(|| tool_error("property name")),
+        );
+    }
+    let cls = TableClass { assign, base: FreeformClass::default() };
+    let actual = guarded(|| unit_result(cls.allows(&s)));
+    t.executions += 1;
+    if actual != doc["res"] {
+        t.mismatch(json!({"k": "tclass", "assign": doc["assign"], "s": doc["s"], "expected": doc["res"], "actual": actual}));
+    }
+    if doc["res"].get("err").is_some() {
+        t.nontrivial += 1;
+    }
+}
+
+/// a sequence of bidirectional classes, instantiated with code points assigned in 16.0.0
+fn replay_bidi(ctx: &Ctx, doc: &Value, t: &mut Tally, idx: u64) {
+    let classes: Vec<&str> = doc["cs"].as_array().unwrap().iter().map(|c| c.as_str().unwrap()).collect();
+    let mut rng = Rng::new(ctx.seed.wrapping_mul(1_000_003).wrapping_add(idx));
+    for draw in 0..ctx.draws {
+        let mut s = String::new();
+        for c in classes.iter() {
+            let pool = ctx.by_class.get(*c).unwrap_or_else(|| tool_error("no code point of class"));
+            // first draw: first member of the class; later draws: random members
+            let cp = if draw == 0 { pool[0] } else { *rng.pick(pool) };
+            s.push(char::from_u32(cp).unwrap());
+        }
+        for p in ["UCM", "UCP"] {
+            let r = call_profile(p, "directionality_rule", &[s.clone()]);
+            t.executions += 1;
+            let expected = if doc["ok"].as_bool().unwrap() { json!({"ok": string_to_cps(&s)}) } else { json!({"err": "Invalid"}) };
+            if r != expected {
+                let devexp = if doc["devok"].as_bool().unwrap() { json!({"ok": string_to_cps(&s)}) } else { json!({"err": "Invalid"}) };
+                t.mismatch(json!({"k": "bidi", "p": p, "cs": doc["cs"], "s": string_to_cps(&s), "expected": expected, "actual": r,
+                                  "dev": if r == devexp { json!("bidi_nsm_strict") } else { Value::Null }}));
+            }
+        }
+    }
+    if doc["rtl"].as_bool().unwrap_or(false) {
+        t.nontrivial += 1;
+    }
+}
+
+pub fn replay(ctx: &Ctx, doc: &Value, t: &mut Tally) {
+    match doc["k"].as_str().unwrap_or("") {
+        "op" => replay_op(ctx, doc, t),
+        "compare" => replay_cmpop(ctx, doc, t),
+        "ctx" => replay_ctx(doc, t),
+        "allows" => replay_allows(doc, t),
+        "tclass" => replay_tclass(doc, t),
+        "bidi" => replay_bidi(ctx, doc, t, t.n),
+        _ => t.mismatch(json!({"toolerr": "unknown replay kind", "case": doc})),
+    }
 }
